@@ -28,6 +28,7 @@ RULE = (
     "sort on/off, under Configuration().bounds in {default, (-50,50), (0,10), (-inf,inf)}.  "
     "Non-trivial when the model has >= 1 non-default attribute class; distinct by (model hash, "
     "channel, sort, configured bounds)."
+    " A third of the models carries null, nested, boolean and numeric values in notes / annotations; model_from_dict must leave its argument unchanged."  # third-session additions
 )
 ASSUMPTIONS = [
     "floats must come back bit-identical (these formats carry full precision)",
